@@ -772,7 +772,7 @@ func (r *gRun) oracles() []string {
 			}{{fltInst, "n", "PostProcessAfterInstantiation"}, {fltProps, "n", "PostProcessProperties"}, {fltBefore, "b", "PostProcessBeforeInitialization"},
 				{fltAPS, "a", "AfterPropertiesSet"}, {fltInit, "i", "Init"}, {fltAfter, "f", "PostProcessAfterInitialization"},
 				{fltEarly, "e", "GetEarlyBeanReference"}, {fltRun, "r", "Run"}} {
-				if n.flt&fw.bit != 0 && seen[fmt.Sprintf("%s%d", fw.ev, i)] {
+				if n.flt&fw.bit != 0 && seen[fmt.Sprintf("%s%d", fw.ev, i)] && !r.toleratedTarget(i) {
 					add("c09-fault-swallowed", "%s of node %d returned an error, yet Run returned nil", fw.what, i)
 				}
 			}
@@ -1311,6 +1311,20 @@ func emitGraph(sc *gScen, tags []string, w *hx.Writer) *gRun {
 func (sc *gScen) retry() bool {
 	for _, n := range sc.nodes {
 		if n.flt&(fltInitOnce|fltLookup) != 0 {
+			return true
+		}
+	}
+	return false
+}
+
+// toleratedTarget: is node i only ever asked for through a lookup whose failure the asking Init absorbs (`~name`)? Its own
+// callbacks may then fail without failing the start.
+func (r *gRun) toleratedTarget(i int) bool {
+	if i >= len(r.rows) {
+		return false
+	}
+	for _, n := range r.sc.nodes {
+		if n.fetch == "~"+r.rows[i].name {
 			return true
 		}
 	}
